@@ -158,22 +158,50 @@ Definition f_digits (sharp : bool) (p m e : Z) : bytes :=
 Definition exp_part (upper : bool) (x : Z) : bytes :=
   (if upper then 69 else 101) :: (if x <? 0 then 45 else 43) :: zext 2 (digits 10 false (Z.abs x)).
 
-Definition e_digits (upper sharp : bool) (p m e : Z) : bytes :=
-  if m =? 0 then 48 :: point sharp p ++ zeros p ++ exp_part upper 0 else
+(* mantissa text d.ddd (p fraction digits) and decimal exponent of m * 2^e rounded to p+1 digits *)
+Definition e_parts (sharp : bool) (p m e : Z) : bytes * Z :=
+  if m =? 0 then (48 :: point sharp p ++ zeros p, 0) else
   let a := m * 2 ^ Z.max e 0 in
   let b := 2 ^ Z.max (- e) 0 in
   let x := floor_log10 a b in
   let n := rhe (a * 10 ^ Z.max (p - x) 0) (b * 10 ^ Z.max (x - p) 0) in
   let '(n, x) := if n >=? 10 ^ (p + 1) then (n / 10, x + 1) else (n, x) in
   let ds := digits 10 false n in
-  firstn 1 ds ++ point sharp p ++ skipn 1 ds ++ exp_part upper x.
+  (firstn 1 ds ++ point sharp p ++ skipn 1 ds, x).
 
-Definition fmt_float (go : bool) (sp : dspec) (is_e upper : bool) (n : num) : bytes :=
+Definition e_digits (upper sharp : bool) (p m e : Z) : bytes :=
+  let '(mant, x) := e_parts sharp p m e in mant ++ exp_part upper x.
+
+(* %g: P significant digits (0 counts as 1); style e when the exponent X of the rounded value is
+   < -4 or >= P, else style f with P-1-X fraction digits; without '#' trailing zeros of the fraction
+   and a trailing point are removed *)
+Fixpoint drop_zeros (s : bytes) : bytes :=
+  match s with 48 :: r => drop_zeros r | _ => s end.
+
+Definition strip_frac (s : bytes) : bytes :=
+  if existsb (Z.eqb 46) s then
+    rev (match drop_zeros (rev s) with 46 :: r => r | r => r end)
+  else s.
+
+Definition g_digits (upper sharp : bool) (p m e : Z) : bytes :=
+  let P := if p =? 0 then 1 else p in
+  let '(mant, x) := e_parts sharp (P - 1) m e in
+  let fix_ (t : bytes) := if sharp then t else strip_frac t in
+  if (x <? -4) || (x >=? P) then fix_ mant ++ exp_part upper x
+  else fix_ (f_digits sharp (P - 1 - x) m e).
+
+Inductive fstyle := SF | SE | SG.
+
+Definition fmt_float (go : bool) (sp : dspec) (is_e : fstyle) (upper : bool) (n : num) : bytes :=
   let p := match d_prec sp with Some p => p | None => 6 end in
   match n with
   | NFin neg m e =>
     pad_num sp true (sign_of sp neg)
-            (if is_e then e_digits upper (f_sharp sp) p m e else f_digits (f_sharp sp) p m e)
+            (match is_e with
+             | SE => e_digits upper (f_sharp sp) p m e
+             | SF => f_digits (f_sharp sp) p m e
+             | SG => g_digits upper (f_sharp sp) p m e
+             end)
   | NInf neg =>
     pad (f_minus sp) (d_width sp) (sign_of sp neg ++ if upper then [73;78;70] else [105;110;102])
   | NNaN =>
@@ -226,9 +254,11 @@ Definition fmt_dir (go : bool) (sp : dspec) (a : farg) : option bytes :=
     else if v =? 88 then Some (fmt_unsigned go sp 16 true (to_uint64 n))   (* X *)
     else if v =? 111 then Some (fmt_unsigned go sp 8 false (to_uint64 n))  (* o *)
     else if v =? 117 then Some (fmt_unsigned go sp 10 false (to_uint64 n)) (* u *)
-    else if v =? 101 then Some (fmt_float go sp true false n)                       (* e *)
-    else if v =? 69 then Some (fmt_float go sp true true n)                         (* E *)
-    else if v =? 102 then Some (fmt_float go sp false false n)                      (* f *)
+    else if v =? 101 then Some (fmt_float go sp SE false n)                       (* e *)
+    else if v =? 69 then Some (fmt_float go sp SE true n)                         (* E *)
+    else if v =? 102 then Some (fmt_float go sp SF false n)                         (* f *)
+    else if v =? 103 then Some (fmt_float go sp SG false n)                         (* g *)
+    else if v =? 71 then Some (fmt_float go sp SG true n)                           (* G *)
     else if v =? 115 then                                                           (* s *)
       (* LNumber.String(): decimal integer when the number is integral and fits int64 *)
       if is_integral n && in_int64 (to_int64 n) && negb (to_int64 n =? - two63) then
@@ -378,4 +408,4 @@ Definition c_defined (sp : dspec) (a : farg) : bool :=
    else if v =? 99 then negb (f_sharp sp) && negb (f_zero sp)
                         && match d_prec sp with None => true | _ => false end
    else if v =? 115 then negb (f_sharp sp) && negb (f_zero sp)
-   else verb_in v [101;69;102]).
+   else verb_in v [101;69;102;103;71]).
